@@ -12,9 +12,14 @@
 //          address).  A run may have 0..2 group filters and 0..2 name filters in effect (substring / strict / inverted /
 //          inverted strict; values mostly the program's own names or parts of them), set on the registry or through the
 //          runner's -g/-sg/-xg/-xsg/-n/-sn/-xn/-xsn.
+//          Decoded last (absent bytes = none of it): -v, -c, tests run in a separate process (-p, 1 case in 32; the stream is
+//          captured in shared memory so that the child's messages are seen), up to three actions of a scripted TestPlugin (pre or
+//          post action of a test: print a line through the result, or record a failure for the test), up to two lines printed by
+//          tests themselves (newline-terminated, no '#').
 //          The registry is run 1..3 times against the SAME output object with a fresh TestResult per pass (what
 //          CommandLineTestRunner does for -rN), the order optionally reversed or re-shuffled before a pass; one case in three
-//          goes through a real CommandLineTestRunner subclass with argv "-oteamcity [-rN] [-ri] [-b] [-sSEED]".
+//          goes through the REAL, unmodified CommandLineTestRunner (parseArguments -> createTeamCityOutput; the stream is captured
+//          at the PlatformSpecificFPuts seam) with argv "-oteamcity [-rN] [-ri] [-b] [-sSEED] [-v] [-c] [-p] [filters]".
 // Execution: a REAL run: TestRegistry::runAllTests with a TeamCityTestOutput subclass that only captures printBuffer
 //          (and notes which tests the registry announced in which pass: the order after a shuffle is an input, not a result).
 // Oracle:  an independent decoder of the service-message grammar; the decoded message sequence must equal the sequence
@@ -25,6 +30,9 @@
 #include "CppUTest/TeamCityTestOutput.h"
 #include "CppUTest/CommandLineTestRunner.h"
 #include "CppUTest/TestFilter.h"
+#include "CppUTest/TestPlugin.h"
+#include "CppUTest/TestFailure.h"
+#include <sys/mman.h>
 #include <memory>
 #include <algorithm>
 
@@ -38,7 +46,12 @@ const char* const KEY_FILE = "C20:test-file-unescaped-in-failed-message";
 // ---------------------------------------------------------------- model of a case
 struct Step { bool exits; std::string text, file; uint32_t line; bool strcmp = false; std::string op2; };
 // FAIL(text) at (file,line); exits == leaves the phase (the normal FAIL); strcmp: STRCMP_EQUAL(text, op2) at (file,line) instead
-struct TestM { std::string group, name, file; uint32_t line = 1; bool ignored = false; std::vector<Step> body, teardown; };
+struct TestM {
+    std::string group, name, file; uint32_t line = 1; bool ignored = false; std::vector<Step> body, teardown;
+    int pluginKind[2] = {-1, -1};      // scripted plugin, [0] pre action, [1] post action of this test: -1 nothing, 0 print a line through the result, 1 record a failure
+    std::string pluginText[2];
+    std::vector<std::string> prints;   // lines the test prints at the start of its body (ordinary console text between the messages)
+};
 struct CaseM {
     bool runIgnored = false;
     std::vector<TestM> tests;          // in registration order; a suite = maximal run of equal group names in the order of a pass
@@ -48,6 +61,8 @@ struct CaseM {
     uint32_t shuffleSeed = 1;
     struct Filter { bool strict = false, invert = false; std::string value; };
     std::vector<Filter> groupFilters, nameFilters;   // a test is selected when (no group filter or one of them matches its group) and the same for its name
+    bool verbose = false, color = false;   // -v, -c
+    bool separateProcess = false;          // -p: every executed test runs in a forked child
 };
 bool filter_matches(const CaseM::Filter& f, const std::string& name) {
     bool m = f.strict ? name == f.value : name.find(f.value) != std::string::npos;
@@ -231,6 +246,24 @@ CaseM decode(Reader& r) {
             (which == 0 ? c.groupFilters : c.nameFilters).push_back(f);
         }
     }
+    // extras, decoded after everything else so that older inputs keep their meaning
+    c.verbose = r.below(8) >= 6;
+    c.color = r.below(8) == 7;
+    c.separateProcess = r.below(32) == 31;
+    auto line_of_text = [&](Reader& rr) {   // a well-behaved printed line: no '#', ends with a line break
+        std::string t = gen_text(rr, 8), o;
+        for (char ch : t) if (ch != '#') o.push_back(ch);
+        return o + "\n";
+    };
+    uint32_t nplug = r.below(4);
+    for (uint32_t i = 0; i < nplug; i++) {
+        TestM& t = c.tests[r.below((uint32_t)c.tests.size())];
+        uint32_t when = r.below(2);
+        t.pluginKind[when] = (int)r.below(2);
+        t.pluginText[when] = t.pluginKind[when] == 0 ? line_of_text(r) : gen_text(r, 8);
+    }
+    uint32_t nprint = r.below(3);
+    for (uint32_t i = 0; i < nprint; i++) c.tests[r.below((uint32_t)c.tests.size())].prints.push_back(line_of_text(r));
     return c;
 }
 
@@ -273,12 +306,25 @@ void expected_events(const CaseM& c, const std::vector<const TestM*>& order, std
         }
         { Event e; e.kind = Event::TestStart; e.name = t.name; ev.push_back(e); }
         bool executed = !t.ignored || c.runIgnored;
+        size_t failuresBefore = ev.size();
+        auto plugin = [&](int when) {   // a plugin reports for the test itself: location = the test's file and line
+            if (!executed || t.pluginKind[when] != 1) return;
+            Event e; e.kind = Event::TestFailed; e.name = t.name; e.details = t.pluginText[when];
+            e.loc = t.file + ":" + std::to_string(t.line);
+            e.locWithPrefix = "TEST failed (" + e.loc + "): " + e.loc;
+            ev.push_back(e);
+        };
         if (!executed) { Event e; e.kind = Event::TestIgnored; e.name = t.name; ev.push_back(e); }
-        else
+        plugin(0);
+        if (executed)
             for (int ph = 0; ph < 2; ph++)
                 for (auto& s : ph == 0 ? t.body : t.teardown) {
                     Event e; e.kind = Event::TestFailed; e.name = t.name; e.details = s.text;
                     e.natural = s.strcmp; e.details2 = s.op2;
+                    if (s.strcmp) {   // the text the framework's own failure class builds for these operands is the original
+                        UtestShell any("g", "n", "f", 1);
+                        e.details = StringEqualFailure(&any, s.file.c_str(), s.line, s.text.c_str(), s.op2.c_str(), "").getMessage().asCharString();
+                    }
                     e.loc = s.file + ":" + std::to_string(s.line);
                     e.locWithPrefix = "TEST failed (" + t.file + ":" + std::to_string(t.line) + "): " + e.loc;
                     e.outside = s.file != t.file || s.line < t.line;
@@ -286,6 +332,18 @@ void expected_events(const CaseM& c, const std::vector<const TestM*>& order, std
                     ev.push_back(e);
                     if (s.exits) break;
                 }
+        plugin(1);
+        if (executed && c.separateProcess) {
+            // the child printed the messages above; when anything failed there the parent adds one record of its own (DESIGN A.4)
+            size_t failed = 0;
+            for (size_t k = failuresBefore; k < ev.size(); k++) if (ev[k].kind == Event::TestFailed) failed++;
+            if (failed) {
+                Event e; e.kind = Event::TestFailed; e.name = t.name; e.details = "Failed in separate process";
+                e.loc = t.file + ":" + std::to_string(t.line);
+                e.locWithPrefix = "TEST failed (" + e.loc + "): " + e.loc;
+                ev.push_back(e);
+            }
+        }
         { Event e; e.kind = Event::TestFinish; e.name = t.name; ev.push_back(e); }
         if (last) { Event e; e.kind = Event::SuiteFinish; e.name = t.group; e.optional = !anySelected; ev.push_back(e); }
     }
@@ -302,10 +360,11 @@ void run_steps(const std::vector<Step>& steps) {
         else UtestShell::getCurrent()->fail(st.text.c_str(), st.file.c_str(), st.line, soft_terminator);
     }
 }
+TestResult* current_result();
 struct ScriptedTest : Utest {
     const TestM* t;
     explicit ScriptedTest(const TestM* tm) : t(tm) {}
-    void testBody() CPPUTEST_OVERRIDE { run_steps(t->body); }
+    void testBody() CPPUTEST_OVERRIDE { for (auto& l : t->prints) current_result()->print(l.c_str()); run_steps(t->body); }
     void teardown() CPPUTEST_OVERRIDE { run_steps(t->teardown); }
 };
 // every shell owns exact-size heap copies of its three strings: equal text never implies equal address
@@ -319,55 +378,79 @@ struct Shell : OwnNames, UtestShell {
     const TestM* t;
     explicit Shell(const TestM* tm) : OwnNames(tm), UtestShell(g, n, f, tm->line), t(tm) {}
     Utest* createTest() CPPUTEST_OVERRIDE { return new ScriptedTest(t); }
+    TestResult* result() { return getTestResult(); }
 };
 struct IgnoredShell : OwnNames, IgnoredUtestShell {
     const TestM* t;
     explicit IgnoredShell(const TestM* tm) : OwnNames(tm), IgnoredUtestShell(g, n, f, tm->line), t(tm) {}
     Utest* createTest() CPPUTEST_OVERRIDE { return new ScriptedTest(t); }
+    TestResult* result() { return getTestResult(); }
 };
-// sinks of the case being executed (the runner owns and deletes its output object)
-std::string g_out;
-std::vector<std::string> g_messages;                    // the failure texts handed to the output (its input), in order
-std::vector<std::vector<const TestM*>> g_announced;     // per pass: the registry's test list (selected or not) when the pass starts
-TestRegistry* g_registry = nullptr;
-
-const TestM* model_of(const UtestShell& test);
-
-struct CapturingTeamCity : TeamCityTestOutput {
-    void printBuffer(const char* s) CPPUTEST_OVERRIDE { g_out += s; }
-    void flush() CPPUTEST_OVERRIDE {}
-    void printFailure(const TestFailure& f) CPPUTEST_OVERRIDE {
-        g_messages.push_back(f.getMessage().asCharString());
-        TeamCityTestOutput::printFailure(f);
-    }
-    void printTestsStarted() CPPUTEST_OVERRIDE {
-        g_announced.emplace_back();
-        for (UtestShell* t = g_registry ? g_registry->getFirstTest() : nullptr; t; t = t->getNext()) g_announced.back().push_back(model_of(*t));
-        TeamCityTestOutput::printTestsStarted();
-    }
-};
+TestResult* current_result() {
+    UtestShell* cur = UtestShell::getCurrent();
+    if (Shell* a = dynamic_cast<Shell*>(cur)) return a->result();
+    return static_cast<IgnoredShell*>(cur)->result();
+}
 const TestM* model_of(const UtestShell& test) {
     if (const Shell* a = dynamic_cast<const Shell*>(&test)) return a->t;
     if (const IgnoredShell* b = dynamic_cast<const IgnoredShell*>(&test)) return b->t;
     return nullptr;
 }
-struct Runner : CommandLineTestRunner {
-    Runner(int ac, const char* const* av, TestRegistry* reg) : CommandLineTestRunner(ac, av, reg) {}
-    TestOutput* createTeamCityOutput() CPPUTEST_OVERRIDE { return new CapturingTeamCity; }
+
+// the captured stream lives in shared memory: with -p the child's messages have to arrive in it like they would on a shared stdout
+struct SharedStream { size_t len; bool overflow; char data[1]; };
+const size_t STREAM_MAX = 64u << 20;
+SharedStream* g_stream = nullptr;
+void stream_append(const char* s) {
+    size_t n = strlen(s);
+    if (g_stream->len + n > STREAM_MAX) { g_stream->overflow = true; return; }
+    memcpy(g_stream->data + g_stream->len, s, n);
+    g_stream->len += n;
+}
+void seam_fputs(const char* s, PlatformSpecificFile f) { if (f == PlatformSpecificStdOut) stream_append(s); }   // ConsoleTestOutput::printBuffer of the real TeamCityTestOutput
+void seam_flush() {}
+
+struct CapturingTeamCity : TeamCityTestOutput {   // the harness's own loop: only the sink is replaced
+    void printBuffer(const char* s) CPPUTEST_OVERRIDE { stream_append(s); }
+    void flush() CPPUTEST_OVERRIDE {}
 };
+
+// the scripted plugin: acts before / after the test it is told to
+struct ScriptPlugin : TestPlugin {
+    ScriptPlugin() : TestPlugin("verif-script") {}
+    void act(UtestShell& test, TestResult& result, int when) {
+        const TestM* t = model_of(test);
+        if (!t) return;
+        if (t->pluginKind[when] == 0) result.print(t->pluginText[when].c_str());
+        if (t->pluginKind[when] == 1) { TestFailure f(&test, t->pluginText[when].c_str()); result.addFailure(f); }   // as MemoryLeakWarningPlugin reports
+    }
+    void preTestAction(UtestShell& test, TestResult& result) CPPUTEST_OVERRIDE { act(test, result, 0); }
+    void postTestAction(UtestShell& test, TestResult& result) CPPUTEST_OVERRIDE { act(test, result, 1); }
+};
+
+// per pass: the registry's test list (selected or not) when the pass starts -- an input of the output, not a result
+std::vector<std::vector<const TestM*>> g_announced;
+void note_order(TestRegistry& reg, const std::vector<const TestM*>* byDummy = nullptr, const std::vector<UtestShell*>* dummies = nullptr) {
+    g_announced.emplace_back();
+    for (UtestShell* t = reg.getFirstTest(); t; t = t->getNext()) {
+        if (!dummies) { g_announced.back().push_back(model_of(*t)); continue; }
+        for (size_t i = 0; i < dummies->size(); i++) if ((*dummies)[i] == t) g_announced.back().push_back((*byDummy)[i]);
+    }
+}
 
 int execute(const CaseM& c) {
     verif::fake_millis_value = 0;
-    g_out.clear(); g_messages.clear(); g_announced.clear();
+    g_stream->len = 0; g_stream->overflow = false;
+    g_announced.clear();
     std::vector<std::unique_ptr<UtestShell>> shells;
     for (auto& t : c.tests) {
         if (t.ignored) shells.emplace_back(new IgnoredShell(&t));
         else shells.emplace_back(new Shell(&t));
     }
     TestRegistry reg;
-    g_registry = &reg;
-    struct Unset { ~Unset() { g_registry = nullptr; } } unset;
     for (size_t i = shells.size(); i-- > 0;) reg.addTest(shells[i].get());   // addTest prepends
+    ScriptPlugin plugin;
+    reg.installPlugin(&plugin);
     if (c.viaRunner) {
         std::vector<std::string> args = {"harness", "-oteamcity"};
         for (int which = 0; which < 2; which++)
@@ -379,15 +462,35 @@ int execute(const CaseM& c) {
         if (c.runIgnored) args.push_back("-ri");
         if (c.op[0] == 1) args.push_back("-b");
         if (c.op[0] == 2) args.push_back("-s" + std::to_string(c.shuffleSeed));
+        if (c.verbose) args.push_back("-v");
+        if (c.color) args.push_back("-c");
+        if (c.separateProcess) args.push_back("-p");
+        // the order of each pass: what -b (once) and -s SEED (before every pass) do to a list of that length, taken from a mirror registry
+        {
+            std::vector<std::unique_ptr<UtestShell>> dummyOwner; std::vector<UtestShell*> dummies; std::vector<const TestM*> byDummy;
+            TestRegistry mirror;
+            for (auto& t : c.tests) { dummyOwner.emplace_back(new UtestShell("g", "n", "f", 1)); dummies.push_back(dummyOwner.back().get()); byDummy.push_back(&t); }
+            for (size_t i = dummies.size(); i-- > 0;) mirror.addTest(dummies[i]);
+            if (c.op[0] == 1) mirror.reverseTests();
+            for (uint32_t p = 0; p < c.passes; p++) {
+                if (c.op[0] == 2) mirror.shuffleTests(c.shuffleSeed);
+                note_order(mirror, &byDummy, &dummies);
+            }
+        }
         std::vector<const char*> av;
         for (auto& a : args) av.push_back(a.c_str());
-        Runner runner((int)av.size(), av.data(), &reg);
-        runner.runAllTestsMain();
+        {
+            CommandLineTestRunner runner((int)av.size(), av.data(), &reg);   // the real runner creates the real TeamCityTestOutput
+            runner.runAllTestsMain();
+        }
         UtestShell::setRethrowExceptions(false);
         return 0;
     }
     CapturingTeamCity out;
+    if (c.verbose) out.verbose(TestOutput::level_verbose);
+    if (c.color) out.color();
     if (c.runIgnored) reg.setRunIgnored();
+    if (c.separateProcess) reg.setRunTestsInSeperateProcess();
     std::vector<std::unique_ptr<TestFilter>> filters;
     for (int which = 0; which < 2; which++) {
         TestFilter* head = NULLPTR;
@@ -402,6 +505,7 @@ int execute(const CaseM& c) {
     for (uint32_t p = 0; p < c.passes; p++) {
         if (c.op[p] == 1) reg.reverseTests();
         if (c.op[p] == 2) reg.shuffleTests(c.shuffleSeed + p);
+        note_order(reg);
         out.printTestRun(p + 1, c.passes);
         TestResult result(out);          // a fresh result per pass, the same output object
         reg.runAllTests(result);
@@ -462,11 +566,12 @@ bool parse_message(const std::string& line, Msg& m, std::string& err, size_t& i)
 }
 
 std::string render(const CaseM& c) {
-    std::string o = sfmt("runIgnored=%d passes=%u%s order=%u,%u,%u seed=%u;", c.runIgnored, c.passes, c.viaRunner ? " via CommandLineTestRunner" : "", c.op[0], c.op[1], c.op[2], c.shuffleSeed);
+    std::string o = sfmt("%s%s%srunIgnored=%d passes=%u%s order=%u,%u,%u seed=%u;", c.verbose ? "-v " : "", c.color ? "-c " : "", c.separateProcess ? "-p " : "", c.runIgnored, c.passes, c.viaRunner ? " via CommandLineTestRunner" : "", c.op[0], c.op[1], c.op[2], c.shuffleSeed);
     for (int which = 0; which < 2; which++)
         for (auto& f : which == 0 ? c.groupFilters : c.nameFilters)
             o += sfmt(" %s%s%s \"%s\"", f.invert ? "-x" : "-", f.strict ? "s" : "", which == 0 ? "g" : "n", P(f.value).c_str());
     for (auto& t : c.tests) {
+        for (int w = 0; w < 2; w++) if (t.pluginKind[w] >= 0) o += sfmt(" [plugin-%s:%s(\"%s\")]", w ? "post" : "pre", t.pluginKind[w] ? "failure" : "print", P(t.pluginText[w]).c_str());
         o += sfmt(" %s(\"%s\", \"%s\" @\"%s\":%u", t.ignored ? "IGNORE_TEST" : "TEST", P(t.group).c_str(), P(t.name).c_str(), P(t.file).c_str(), t.line);
         for (int ph = 0; ph < 2; ph++)
             for (auto& s : ph == 0 ? t.body : t.teardown)
@@ -479,8 +584,8 @@ std::string render(const CaseM& c) {
 
 int run_and_judge(const CaseM& c, bool useKnown, bool& nontrivial) {
     execute(c);
-    std::string out; out.swap(g_out);
-    std::vector<std::string> messages; messages.swap(g_messages);
+    std::string out(g_stream->data, g_stream->len);
+    if (g_stream->overflow) { verif::observe("a stream exceeded the capture buffer; case not judged"); return 0; }
     std::vector<std::vector<const TestM*>> announced; announced.swap(g_announced);
     if (verif::g_explain) fprintf(stderr, "---- stream ----\n%s----\n", out.c_str());
     // every pass has to announce every test exactly once (the order of a pass is the registry's business, C02)
@@ -545,18 +650,13 @@ int run_and_judge(const CaseM& c, bool useKnown, bool& nontrivial) {
     verif::cls(sfmt("suites:%zu", suites > 5 ? 5 : suites).c_str());
     if (nfailed >= 2) verif::cls("2+-failures");
 
-    // failures produced by a real check: the text the framework handed to the output is the original; it has to hold both operands
-    {
-        size_t k = 0;
-        for (auto& e : ev) if (e.kind == Event::TestFailed) {
-            if (e.natural && k < messages.size()) {
-                if (messages[k].find(e.details) == std::string::npos || messages[k].find(e.details2) == std::string::npos)
-                    verif::observe("a STRCMP_EQUAL failure text does not contain both operands verbatim (operands with CR/LF are shown escaped)");
-                e.details = messages[k];
-                verif::cls(e.details.size() >= 1000 ? "failure:natural-STRCMP-text>=1000" : "failure:natural-STRCMP-text");
-            }
-            k++;
-        }
+    for (auto& e : ev) if (e.kind == Event::TestFailed && e.natural) verif::cls(e.details.size() >= 1000 ? "failure:natural-STRCMP-text>=1000" : "failure:natural-STRCMP-text");
+    if (c.verbose) verif::cls("option:-v");
+    if (c.color) verif::cls("option:-c");
+    if (c.separateProcess) verif::cls("separate-process");
+    for (auto& t : c.tests) {
+        for (int w = 0; w < 2; w++) if (t.pluginKind[w] >= 0) verif::cls(sfmt("plugin:%s-action-%s", w ? "post" : "pre", t.pluginKind[w] ? "records-failure" : "prints").c_str());
+        if (!t.prints.empty()) verif::cls("test-prints-lines");
     }
     // walk the lines
     size_t next = 0;   // index of the next expected event
@@ -640,7 +740,13 @@ int run_and_judge(const CaseM& c, bool useKnown, bool& nontrivial) {
 }  // namespace
 
 extern "C" const char* verif_property(void) { return "C20"; }
-extern "C" void verif_init(void) { verif::install_fake_time(); }
+extern "C" void verif_init(void) {
+    verif::install_fake_time();
+    g_stream = (SharedStream*)mmap(nullptr, sizeof(SharedStream) + STREAM_MAX, PROT_READ | PROT_WRITE, MAP_SHARED | MAP_ANONYMOUS, -1, 0);
+    if (g_stream == MAP_FAILED) { perror("mmap"); abort(); }
+    PlatformSpecificFPuts = seam_fputs;
+    PlatformSpecificFlush = seam_flush;
+}
 extern "C" int verif_case(const uint8_t* data, size_t size) {
     Reader r(data, size);
     CaseM c = decode(r);
